@@ -153,6 +153,8 @@ var helperRules = map[string]helperRule{
 	"maps.(Set).Add": {"set-helper", "maps.Set.Has is the presence flag of the map lookup and maps.Set.Add stores and reports true exactly when the value was absent - the set the exclusion helpers are built on (C03's rows, re-run here)",
 		c03SetCore},
 	"maps.(Set).Has": {"set-helper", "", c03SetCore},
+	"slices.Clone": {"clone-helper", "slices.Clone returns a freshly made slice of its argument's length with the contents copied, on every path (C12's row, re-run here)",
+		func(c *Ctx, rule string) { c12CloneRow(c, rule) }},
 	"slices.Fill": {"fill-helper", "slices.Fill sets every element of its argument to the value (C12's row, re-run here)",
 		func(c *Ctx, rule string) { c12Fill(c, rule) }},
 }
@@ -268,6 +270,15 @@ func runDepClosure(c *Ctx) {
 				nDeps++
 				continue
 			}
+			if home := homeOf(g.Name); home != "" && home != c.R.Prop && baseline[g.Name] {
+				// a function that another property's rules decide: run those rules for this one function and take
+				// over what they say about it
+				if n := runHomeRules(c, home, g.Name); n > 0 {
+					c.R.Held(rule, g.Name, "home-rules", c.pos(g), fmt.Sprintf("reached from %s; decided by %d obligation(s) of %s's rules, re-run here for this function (rule %s-rules)", f.Name, n, home, home))
+					nDeps++
+					continue
+				}
+			}
 			if len(baseline) > 0 && !baseline[g.Name] {
 				// a new helper: its body is judged where it is called (inlining views); keep following its callees
 				c.R.Held(rule, g.Name, "new-helper", c.pos(g), "reached from "+f.Name+"; not in the baseline: judged at its call sites by the inlining views")
@@ -277,4 +288,95 @@ func runDepClosure(c *Ctx) {
 		}
 	}
 	c.R.Analysed["dependencies_followed"] = nDeps
+}
+
+// homeOf: the property whose rules decide a function of the module ("" = none).
+func homeOf(name string) string {
+	has := func(p string) bool { return strings.HasPrefix(name, p) }
+	in := func(pkg string, fns ...string) bool {
+		for _, f := range fns {
+			if name == pkg+"."+f {
+				return true
+			}
+		}
+		return false
+	}
+	switch {
+	case has("avl."):
+		return "C01"
+	case has("arrays."):
+		return "C08"
+	case has("sync2.(*Map)."), has("sync2.(*entry)."), name == "sync2.newEntry":
+		return "C04"
+	case has("sync2.(*Set)."), has("maps.(Set)."), has("sets."), in("maps", "NewSetFromSlice", "NewSetFromKeys", "NewSetFromValues"), in("sync2", "NewSetFromSlice", "NewSetFromKeys", "NewSetFromValues"):
+		return "C03"
+	case has("sync2.(*KeyedMutex)."), has("sync2.(*KeyedRWMutex)."):
+		return "C09"
+	case has("sync2.(*Once"):
+		return "C17"
+	case has("sync2.(*AtomicValue)."), has("sync2.(*Pool)."):
+		return "C18"
+	case has("lists.(*Queue)."), has("lists.(*Stack)."):
+		return "C16"
+	case has("lists."):
+		return "C06"
+	case has("chans.(*PubSub)."):
+		return "C10"
+	case has("chans."):
+		return "C19"
+	case has("maps.(*Bimap)."):
+		return "C11"
+	case has("maps."):
+		return "C14"
+	case has("slices.(*Sorted)."), has("slices.(Sorted)."), in("slices", "NewSorted", "NewSortedOrdered"):
+		return "C07"
+	case in("slices", "Insert", "InsertSlice", "Remove", "RemoveSlice", "Concat", "Clone", "Repeat", "Fill", "Reverse", "Grow"):
+		return "C12"
+	case in("slices", "Chunk", "ChunkFunc", "Windowed", "WindowedFunc", "Pairs", "PairsFunc"):
+		return "C13"
+	case has("slices.(sort"), in("slices", "Sort", "SortDesc", "SortFunc", "SortDescFunc", "SortStableFunc", "SortStableDescFunc", "BinarySearch", "BinarySearchFunc", "Shuffle", "ShuffleRand"):
+		return "C15"
+	case has("slices."):
+		return "C14"
+	case has("typ."):
+		return "C20"
+	}
+	return ""
+}
+
+// runHomeRules runs the rule set of property `home` on the current tree restricted to function fn (anchors of other
+// functions resolve to nothing), on a report of its own, and imports the obligations it yields for fn under the rule
+// `<home>-rules`. Returns how many were imported. Floors and controls of the home property are its own business and
+// are not evaluated here.
+func runHomeRules(c *Ctx, home, fn string) int {
+	spec := props[home]
+	if spec == nil {
+		return 0
+	}
+	R2 := NewReport(home, c.Tier)
+	c2 := &Ctx{R: R2, P: c.P, An: c.An, Tier: c.Tier, Verif: c.Verif, Repo: c.Repo, Only: map[string]bool{fn: true}}
+	func() {
+		defer func() {
+			if r := recover(); r != nil {
+				R2.Obs = nil
+			}
+		}()
+		spec.run(c2)
+	}()
+	rule := home + "-rules"
+	n := 0
+	for _, o := range R2.Obs {
+		if o.Construct != fn {
+			continue
+		}
+		if n == 0 {
+			if _, have := c.R.Rules[rule]; !have {
+				c.R.Rule(rule, "functions that the examined code calls and that property "+home+"'s rules decide are decided here by those rules, re-run for just these functions", 0)
+			}
+		}
+		no := c.R.add(rule, o.Construct, o.Rule+"/"+o.Instance, o.Verdict, o.Pos, o.Msg, o.Facts...)
+		no.Breaks = o.Breaks
+		n++
+	}
+	return n
 }
